@@ -30,9 +30,19 @@ def f_real(r):
     return (r // PERIOD) * 500 + (0, 1, 499)[r % PERIOD]
 
 
+def timers_of(nv, repmax):
+    """model points (variation, rep) where the five-minute timer fires"""
+    t = []
+    if repmax >= 4:
+        t.append([1, 2])
+        if nv >= 2:
+            t.append([2, 4])
+    return t
+
+
 def model(nv, repmax, maxinc, delete, mismatch, dev=(), emit=True):
     d = {k: (k in dev) for k in DEVS}
-    defs = {"Dev": tlc.tla(d)}
+    defs = {"Dev": tlc.tla(d), "TimerAt": "{" + ", ".join(tlc.tla(x) for x in timers_of(nv, repmax)) + "}"}
     cfg = tlc.cfg_text(constants={"NV": str(nv), "RepMax": str(repmax), "SavePeriod": str(PERIOD), "MaxInc": str(maxinc),
                                   "DeletePartials": tlc.tla(bool(delete)), "AllowMismatch": tlc.tla(bool(mismatch))},
                        defs=defs, invariants=INVS, action_constraints=["Emit"] if emit else [])
@@ -87,7 +97,7 @@ class _HalfFile:
         return getattr(self.f, n)
 
 
-def make_runner(case, inc, pid, wd, ext, fault, seen):
+def make_runner(case, inc, pid, wd, ext, fault, seen, clock):
     from pyphysim.simulations.runner import SimulationRunner
     from pyphysim.simulations.results import Result, SimulationResults
     nv = case["nv"]
@@ -118,6 +128,8 @@ def make_runner(case, inc, pid, wd, ext, fault, seen):
         def _run_simulation(self, current_params):
             v = current_params["p"]
             self._hit("body", v, self.known.get(v, 0))
+            if [v, self.known.get(v, 0) + 1] in [[tv, f_real(tr)] for tv, tr in timers_of(nv, case["repmax"])]:
+                clock[0] += 0.0 if os.environ.get("VERIF_C07_NOTIMER") else 301.0          # "more than five minutes" since the last save
             r = SimulationResults()
             r.add_new_result("tok", Result.SUMTYPE, token)
             r.add_new_result("rat", Result.RATIOTYPE, token, 2 ** 10)
@@ -182,7 +194,11 @@ def run_case(job):
             last = inc == incs
             fault = None if last else fault_of(crashes[inc - 1], case)
             seen = {}
-            runner = make_runner(case, inc, pids[inc - 1], wd, ext, fault, seen)
+            clock = [1000.0 * inc]
+            import pyphysim.simulations.runner as runmod
+            real_time = runmod.time
+            runmod.time = lambda: clock[0]
+            runner = make_runner(case, inc, pids[inc - 1], wd, ext, fault, seen, clock)
             real_remove = os.remove
             if fault and fault["kind"] == "write":
                 target = fault["file"]
@@ -219,6 +235,7 @@ def run_case(job):
                     except AttributeError:
                         pass
                 os.remove = real_remove
+                runmod.time = real_time
             if not last:
                 if not crashed and not (fault["kind"] == "remove" and not case["delete"]):
                     return f"incarnation {inc}: the crash point {fault} was never reached", None
